@@ -69,13 +69,34 @@ def _solve_text(args):
 def solve_all(items, timeout_ms=10000, second=True, procs=None, want_model=True):
     """items: list of (name, smt2 text or None). returns dict name -> (result, backend, secs, model)"""
     procs = procs or min(16, os.cpu_count() or 4)
-    args = [(n, t, timeout_ms, second, want_model) for n, t in items]
+    procs = procs or min(16, os.cpu_count() or 4)
     out = {}
-    if not args:
+    if not items:
         return out
-    with ThreadPoolExecutor(max_workers=procs) as ex:
-        for r in ex.map(_solve_text, args):
-            out[r[0]] = r[1:]
+    # pass 1: z3 5.1 alone, short budget
+    first = min(timeout_ms, 3000)
+    open_so_far = 0
+    for c0 in range(0, len(items), 320):
+        chunk = items[c0:c0 + 320]
+        if open_so_far >= 150:
+            # the code no longer fits (hundreds of open obligations): the rest is not attempted, it cannot change the verdict
+            for n, t in chunk:
+                out[n] = ('unknown', 'skipped', 0.0, 'not attempted: %d obligations were already open' % open_so_far)
+            continue
+        with ThreadPoolExecutor(max_workers=procs) as ex:
+            for r in ex.map(_solve_text, [(n, t, first, False, False) for n, t in chunk]):
+                out[r[0]] = r[1:]
+                if r[1] != 'unsat':
+                    open_so_far += 1
+    # pass 2: what is left, full budget; the second-opinion portfolio only for the first 24 (many open obligations at
+    # once mean the code no longer fits: the verdict cannot improve beyond that, and the cost must stay bounded)
+    left = [(n, t) for n, t in items if out[n][0] != 'unsat' and out[n][1] != 'skipped']
+    retry = [(n, t, timeout_ms, second and i < 24, want_model and i < 24) for i, (n, t) in enumerate(left[:48])]
+    if retry:
+        with ThreadPoolExecutor(max_workers=procs) as ex:
+            for r in ex.map(_solve_text, retry):
+                prev = out[r[0]]
+                out[r[0]] = (r[1], r[2], prev[2] + r[3], r[4])
     return out
 
 
